@@ -77,7 +77,7 @@ fn op_strategy() -> impl Strategy<Value = Op> {
     ]
 }
 
-fn case_strategy() -> BoxedStrategy<Case> {
+pub fn case_strategy() -> BoxedStrategy<Case> {
     (0u8..4, 1u8..=(vh_core::depth(12, 15) as u8), prop_oneof![Just(1u8), Just(4u8), Just(25u8)], proptest::collection::vec(op_strategy(), 1..vh_core::depth(80, 260)))
         .prop_map(|(node, cap, cache, ops)| Case { node, cap, cache, ops })
         .boxed()
@@ -170,7 +170,7 @@ impl World {
     }
 }
 
-fn check(case: &Case, ctx: &mut Ctx) {
+pub fn check(case: &Case, ctx: &mut Ctx) {
     let dir = new_tempdir();
     let kp = keypair_from_seed(0x1000 + case.node as u64);
     let cap = case.cap.max(1) as usize;
